@@ -252,7 +252,8 @@ def poolRequest (price : Pool → String → Nat × Nat × Nat → Nat) (locs : 
     | .bytes b =>
       finish (selectInstColl price locs pools j cloud none label preemptible none cores b storage)
 
-/-- resource block of `_create_jobs` for a docker job (`cloud = CLOUD`) -/
+/-- resource block of `_create_jobs` for a docker job (`cloud = CLOUD`), as of repo commit 2e6787788
+(`if machine_type is not None and machine_type not in valid_machine_types(cloud)`) -/
 def frontEnd (price : Pool → String → Nat × Nat × Nat → Nat) (locs : List String) (pools : List Pool) (j : Jpim)
     (d : Defaults) (cloud : Cloud) (r : Request) : Answer :=
   let label := r.poolLabel.getD ""                       -- `resources.get('pool_label') or ''`
@@ -262,9 +263,25 @@ def frontEnd (price : Pool → String → Nat × Nat × Nat → Nat) (locs : Lis
   | none =>
     poolRequest price locs pools j cloud label preemptible (r.cpuMcpu.getD d.cpuMcpu) (r.memory.getD d.memory) storage
   | some mt =>
+    if ¬ validMachineType cloud mt then .invalid                              -- `machine_type is not None and … not in …`
+    else if mt ≠ "" ∧ (r.cpuMcpu.isSome ∨ r.memory.isSome) then .invalid       -- `if machine_type and (…)`: '' is falsy
+    else if mt ≠ "" ∧ label ≠ "" then .invalid                                 -- `if machine_type and pool_label`
+    else finish (selectInstColl price locs pools j cloud (some mt) label preemptible none 0 0 storage)
+
+/-- the block BEFORE commit 2e6787788 (`if machine_type and machine_type not in …`): kept only to document the repaired
+defect (`Props/C12.lean: empty_machine_type_is_internal_error_old`); not tied to the current code -/
+def frontEndOld (price : Pool → String → Nat × Nat × Nat → Nat) (locs : List String) (pools : List Pool) (j : Jpim)
+    (d : Defaults) (cloud : Cloud) (r : Request) : Answer :=
+  let label := r.poolLabel.getD ""
+  let preemptible := r.preemptible.getD d.preemptible
+  let storage := r.storageBytes.getD d.storageBytes
+  match r.machineType with
+  | none =>
+    poolRequest price locs pools j cloud label preemptible (r.cpuMcpu.getD d.cpuMcpu) (r.memory.getD d.memory) storage
+  | some mt =>
     if mt = "" then
-      -- '' is falsy: it passes every `if machine_type and …` guard, but it is not None, so cpu/memory are not read and
-      -- select_inst_coll reaches `assert machine_type and machine_type in valid_machine_types(cloud)`
+      -- '' is falsy: it passed every `if machine_type and …` guard, but it is not None, so cpu/memory were not read and
+      -- select_inst_coll reached `assert machine_type and machine_type in valid_machine_types(cloud)`
       finish (selectInstColl price locs pools j cloud (some mt) label preemptible none 0 0 storage)
     else if ¬ validMachineType cloud mt then .invalid
     else if r.cpuMcpu.isSome ∨ r.memory.isSome then .invalid
